@@ -86,7 +86,7 @@ pub fn check(id: &str, tier: Tier) -> i32 {
   let mut passes = vec![json!({"cells": mem.len(), "starts": all_starts.len(), "alphabet": alphabet.len(), "depth": depth, "wall_s": t0.elapsed().as_secs_f64()})];
   // pass 2: file-backed cells at depth 3 (an open + close per history)
   let t1 = std::time::Instant::now();
-  let files = cells(&[(Backend::File, true)], cap_unify, cap_unify);
+  let files = cells(&[(Backend::File, true), (Backend::File, false)], cap_unify, cap_unify);
   let spec_f = Spec { depth: if thorough { 4 } else { 3 }, ..spec.clone() };
   explore(&run, &spec_f, &files, &all_starts, id);
   passes.push(json!({"cells": files.len(), "starts": all_starts.len(), "alphabet": alphabet.len(), "depth": spec_f.depth, "backend": "file", "wall_s": t1.elapsed().as_secs_f64()}));
